@@ -191,6 +191,21 @@ CLAIMS["C09"] = dict(
     design_ref="DESIGN.md 5 (C09), B.6", technique=TECH,
     note=TRUST + "; floats as mathematical reals (DESIGN 2.4 item 1b/1c; CPython 3.12's compensated builtin sum is not the "
          "reference); DSum's Decimal loop, VarianceMeanCount and Vectorize are bounded only")
+CLAIMS["C08"] = dict(
+    category="other",
+    text="Proof part: get_recursively for a list of keys (with and without default) returns exactly the item reached by walking "
+         "the key path through nested dictionaries (reference walk(d, ks, i, n), unbounded path length and dictionaries), raises "
+         "LenaKeyError exactly when the path is absent or passes through a non-dictionary, LenaTypeError exactly for a "
+         "non-dictionary d; contains(d, s) agrees with that walk (prefix exists and holds the last component, or is a scalar "
+         "whose string form is the last component) and never raises for a dictionary. Bounded part (labelled): the three key "
+         "notations and the law get_recursively(str_to_dict(s, v), s) is v over all dotted strings of <= 4 components incl. "
+         "empty ones; format_context on all template strings of length <= 5 over `{}a.:!x` and well-formed templates with "
+         "0..3 fields; to_string canonical / injective; UpdateContext over all 48 option combinations, DeleteContext, "
+         "format_update_with with frame (every other item untouched, data identity, deep copy). Five genuine defects repaired "
+         "(fix: commits, known_findings.json).",
+    design_ref="DESIGN.md 5 (C08), B.5", technique=TECH,
+    note=TRUST + "; str.split / str.format / json.dumps / jinja2 are library behaviour (tier A); the dotted-string and dictionary "
+         "notations of get_recursively, str_to_dict and format_context are bounded only")
 NA_REASON = "check not built yet (work in progress; see DESIGN.md section 8)"
 
 def main():
